@@ -62,8 +62,9 @@ fn pt_from_bytes<G: Cv>(b: &[u8]) -> Option<G> {
 }
 
 // ------------------------------------------------------------------------------------------------ RSA keys
-pub struct Key { id: Vec<u8>, bits: usize, sk: RsaPrivateKey, pk: RsaPublicKey, n_hex: String }
-pub struct Env { keys: Vec<Key> }
+pub struct Key { pub(crate) id: Vec<u8>, pub(crate) bits: usize, pub(crate) sk: RsaPrivateKey, pub(crate) pk: RsaPublicKey, pub(crate) n_hex: String }
+pub struct Env { pub(crate) keys: Vec<Key>, /// 512-bit key: outside the property's quantifier, used only to reach the `EncError` path of the correspondence
+    small: Key }
 
 fn load_or_gen(bits: usize, seed: u64, idx: u8) -> Key {
     let dir = "/verif/.build/rsa-keys";
@@ -89,9 +90,9 @@ impl Env {
     pub fn new(o: &Opts) -> Env {
         let mut keys = vec![load_or_gen(1024, o.seed, 0), load_or_gen(1024, o.seed, 1)];
         if o.tier == "thorough" { for bits in [2048, 3072, 4096] { keys.push(load_or_gen(bits, o.seed, 0)); } }
-        Env { keys }
+        Env { keys, small: load_or_gen(512, o.seed, 0) }
     }
-    fn key(&self, id: &[u8]) -> Option<&Key> { self.keys.iter().find(|k| k.id == id) }
+    fn key(&self, id: &[u8]) -> Option<&Key> { self.keys.iter().chain(std::iter::once(&self.small)).find(|k| k.id == id) }
     /// oracle arms `rsaenc <keyid> <seed> <msg>` (empty answer = encryption error) and `rsadec <keyid> <ct>`
     fn rsa(&self, t: &[&str]) -> Option<Vec<u8>> {
         match t[0] {
@@ -109,7 +110,7 @@ impl Env {
         }
     }
 }
-fn ask(drv: &mut Driver, env: &Env, req: &str) -> String {
+pub(crate) fn ask(drv: &mut Driver, env: &Env, req: &str) -> String {
     drv.ask_with(req, &mut |q| oracle::answer_with(q, &mut |t| env.rsa(t)))
 }
 
@@ -408,6 +409,21 @@ fn c09_curve<G: Cv>(o: &Opts, env: &Env, drv: &mut Driver, rep: &mut Report, rng
             judge_forged::<G>(env, drv, rep, "wire-slots", &format!("plain:{}", if nslots < 128 { "<128" } else if nslots <= 256 { "128..=256" } else { ">256" }), &f, &q, &env.keys[0], b"wire", Some((128..=256).contains(&nslots)));
         } else { rep.notes.push(format!("adv plain {nslots} produced no proof")); }
     }
+    // a 512-bit modulus cannot hold (scalar * label integer) with PKCS#1 v1.5 padding: the EncError path (correspondence only)
+    {
+        let (xname, x) = &xs[9];
+        let tape = random_tape::<G>(rng, 128);
+        let k = &env.small;
+        let req = format!("venc prove {} {} {} {} {} none {}", G::TAG, sc_hex::<G>(x), hex::encode(&k.id), k.n_hex, hexw(b"small"), hex::encode(&tape));
+        let idx = rep.case("small-key", Some(&req));
+        rep.hist(&format!("{}:{xname}:rsa-512", G::NAME));
+        let mut t = TapeRng::new(tape);
+        let got = match catch_unwind(AssertUnwindSafe(|| Venc::<G>::encrypt_with_proof(x, &k.pk, b"small", None, &mut t))) {
+            Ok(Ok(p)) => impl_to_bytes(&p).map_or("panic".into(), |b| format!("ok:{}:{}", hexw(&b), t.used)), Ok(Err(e)) => format!("err:{}", err_name(&e)), Err(_) => "panic".into() };
+        let m = ask(drv, env, &req);
+        rep.hist(&format!("small-key:{}", got.chars().take(12).collect::<String>()));
+        if got != m { rep.diverge(Failure { stream: "small-key".into(), index: idx, request: vec![req], impl_out: got, model_out: m, key: "venc:prove-model".into(), what: "model and implementation disagree with a 512-bit RSA key (EncError path)".into() }); }
+    }
     // from_bytes on malformed inputs: every check and its text (the model has the same checks in the same order)
     let (_, x) = &xs[9];
     let q = G::generator() * *x;
@@ -471,7 +487,8 @@ fn c10_curve<G: Cv>(o: &Opts, env: &Env, drv: &mut Driver, rep: &mut Report, rng
         let (gsz, esz, sp) = (G::POINT_LEN, key.pk.size(), 128usize);
         let slots_end = 40 + sp * (gsz + 2 * esz);
         let mut positions: Vec<usize> = vec![];
-        if thorough && round == 0 { positions = (0..bytes.len()).collect(); rep.exhaustive.push(format!("{}: every byte position 0..{} of one serialised proof altered", G::NAME, bytes.len())); }
+        let exhaustive = thorough && round == 0;
+        if exhaustive { positions = (0..bytes.len()).collect(); rep.exhaustive.push(format!("{}: every byte position 0..{} of one serialised proof altered; predicate evaluated on the implementation at every position, model verdict compared at every 8th position and at all header positions", G::NAME, bytes.len())); }
         else {
             positions.extend([0, 1, 15, 31]); positions.extend(32..40);
             for s in [0usize, 1, 63, 126, 127] {
@@ -499,6 +516,7 @@ fn c10_curve<G: Cv>(o: &Opts, env: &Env, drv: &mut Driver, rep: &mut Report, rng
                 rep.pred_fail(Failure { stream: "tamper-byte".into(), index: idx, request: vec![rv.clone()], impl_out: v.clone(), model_out: "err".into(), key: format!("venc:tamper-{}:{cls}", if v == "ok" { "accepted" } else { "panic" }),
                     what: format!("a proof for a non-zero secret with one altered byte (offset {pos}, field {cls}) is {}", if v == "ok" { "accepted" } else { "making from_bytes/verify panic" }) });
             }
+            if exhaustive && pos >= 40 && pos % 8 != 3 { continue; }
             let mv = ask(drv, env, &rv);
             if !same_verdict(&v, &mv) && !explained { rep.diverge(Failure { stream: "tamper-byte".into(), index: idx, request: vec![rv], impl_out: v, model_out: mv, key: "venc:verify-model".into(), what: format!("Lean model and implementation verdicts differ on a proof with one altered byte (field {cls})") }); }
         }
